@@ -29,7 +29,7 @@ def cases(tier, seed):
     for i in range(n):
         bf = rng.choice([4, 4, 8, 3, 6])
         g = dict(seed=rng.randrange(10 ** 9), ndims=3, nlevels=1 + i % 3, bf=bf, nfields=rng.randint(1, 4),
-                 base_blocks=(1, 3) if bf <= 4 else (1, 2), payload="random")
+                 base_blocks=(1, 3) if bf <= 4 else (1, 2), payload=["random", "random", "trace", "nearconst"][i % 4])
         if bf >= 6:
             g["nlevels"] = min(g["nlevels"], 2)
         if i % 4 == 0:
